@@ -3709,6 +3709,13 @@ class NameCheckVisitor(node_visitor.ReplacingNodeVisitor):
                 # The constrained value is the right operand: `c < x` tells us
                 # that x > c, so the check that holds for x is the mirrored one.
                 ext = _MIRRORED_CHECKS[ext]
+            if ext is not None:
+                try:
+                    hash(other_val)
+                except Exception:
+                    # Values are kept in hashed containers together with their metadata;
+                    # a bound on an unhashable literal (`x > [1]`) cannot be recorded.
+                    ext = None
 
             def predicate_func(value: Value, positive: bool) -> Optional[Value]:
                 op = positive_operator if positive else negative_operator
